@@ -32,7 +32,7 @@ type execRes struct {
 }
 
 func c14ExecRun(t *rapid.T) {
-	scenario := rapid.IntRange(1, 3).Draw(t, "scenario")
+	scenario := 1 + uni(t, "scenario", 3)
 	maxTasks := 6
 	if thorough {
 		maxTasks = 32
@@ -50,7 +50,7 @@ func c14ExecRun(t *rapid.T) {
 		progs = append(progs, genProgram(t, genOpts{probes: true, mapRegions: true, pureMapBody: true, sideEffects: true, failing: true, failPct: 10, probePct: 15, maxPieces: 4, maxDepth: 2}))
 	}
 	cacheOn := scenario == 3 || rapid.Bool().Draw(t, "cache")
-	warm := rapid.IntRange(0, 2).Draw(t, "warm") // 0 cold, 1 some, 2 all
+	warm := uni(t, "warm", 3) // 0 cold, 1 some, 2 all
 	mp := drawMapOrder(t)
 	mseed := uint64(7)
 	nvar := 2
@@ -59,12 +59,12 @@ func c14ExecRun(t *rapid.T) {
 	for i := range plan {
 		n := rapid.IntRange(1, 3).Draw(t, "nexec")
 		for x := 0; x < n; x++ {
-			o := execOp{prog: rapid.IntRange(0, nprog-1).Draw(t, "prog"), variant: rapid.IntRange(0, nvar-1).Draw(t, "variant")}
+			o := execOp{prog: uni(t, "prog", nprog), variant: uni(t, "variant", nvar)}
 			switch scenario {
 			case 1, 2:
-				o.kind = []int{0, 0, 0, 4, 1}[rapid.IntRange(0, 4).Draw(t, "kind")]
+				o.kind = []int{0, 0, 0, 4, 1}[uni(t, "kind", 5)]
 			default:
-				o.kind = []int{1, 2, 2, 3}[rapid.IntRange(0, 3).Draw(t, "kind")]
+				o.kind = []int{1, 2, 2, 3}[uni(t, "kind", 4)]
 			}
 			plan[i] = append(plan[i], o)
 		}
